@@ -775,15 +775,16 @@ func runC06(w *World, r *Report) {
 	if f := w.fx(r, "accountant", "AccountingBook", "CalculateBalance"); f != nil {
 		fn := f.fn
 		addr := fn.Params[2].Name()
-		pcs := f.calls(nPourFunds)
+		// (the loop over the ancestors may sit in a helper that is handed the address and the two accumulators)
+		pcs := deepCalls(fn, byName(nPourFunds), 1)
 		in, out := "", ""
 		okRoles := len(pcs) >= 2
-		for i, c := range pcs {
-			_, a := callArgs(c)
+		for i, d := range pcs {
+			_, a := callArgs(d.c)
 			if i == 0 {
-				in, out = pathOf(a[2]), pathOf(a[3])
+				in, out = d.path(a[2]), d.path(a[3])
 			}
-			if pathOf(a[0]) != addr || pathOf(a[2]) != in || pathOf(a[3]) != out || in == out {
+			if d.path(a[0]) != addr || d.path(a[2]) != in || d.path(a[3]) != out || in == out {
 				okRoles = false
 			}
 		}
@@ -877,7 +878,13 @@ func runC06(w *World, r *Report) {
 			}
 			nTip := 0
 			okTip := okS
-			for _, c := range pcs {
+			var direct []ssa.CallInstruction
+			for _, d := range pcs {
+				if len(d.chain) == 0 {
+					direct = append(direct, d.c)
+				}
+			}
+			for _, c := range direct {
 				if header[c.Block()] {
 					continue // the per-ancestor pour
 				}
@@ -1660,6 +1667,21 @@ func checkpointKeyDiscipline(w *World, r *Report, rule string) {
 func visitedSetIsLocal(fn *ssa.Function, m ssa.Value) bool {
 	if _, ok := strip(m).(*ssa.MakeMap); ok {
 		return true
+	}
+	// a set made by the enclosing function and captured by this literal (the loop body turned into a closure)
+	cv := strip(m)
+	if ld, ok := cv.(*ssa.UnOp); ok {
+		if fv, ok := ld.X.(*ssa.FreeVar); ok {
+			cv = capturedValue(fv)
+		}
+	}
+	if fv, ok := cv.(*ssa.FreeVar); ok {
+		cv = capturedValue(fv)
+	}
+	if cv != nil {
+		if _, ok := strip(cv).(*ssa.MakeMap); ok {
+			return true
+		}
 	}
 	prm, isPrm := strip(m).(*ssa.Parameter)
 	if !isPrm || curWorld == nil {
